@@ -143,6 +143,12 @@ var runSeq int64
 // runScript runs one script (its text) with the probe commands and returns the
 // recorder and the result.
 func runScript(root, text string) (*recorder, *tsh.Result) {
+	return runScriptSetup(root, text, nil)
+}
+
+// runScriptSetup: setup holds assignments made by Params.Setup through
+// Env.Setenv before the script starts.
+func runScriptSetup(root, text string, setup [][2]string) (*recorder, *tsh.Result) {
 	rec := &recorder{args: map[int][]string{}, getenv: map[int]string{}, stdouts: map[int]string{}}
 	n := atomic.AddInt64(&runSeq, 1)
 	dir := filepath.Join(root, fmt.Sprintf("s%d", n))
@@ -153,6 +159,12 @@ func runScript(root, text string) (*recorder, *tsh.Result) {
 	p := testscript.Params{
 		Files:           []string{file},
 		ContinueOnError: true,
+		Setup: func(env *testscript.Env) error {
+			for _, a := range setup {
+				env.Setenv(a[0], a[1])
+			}
+			return nil
+		},
 		Cmds: map[string]func(ts *testscript.TestScript, neg bool, args []string){
 			"args": func(ts *testscript.TestScript, neg bool, args []string) {
 				if len(args) == 0 {
@@ -263,6 +275,8 @@ func checkBatch(root string, prelude []string, lines []string, kind string) []ki
 
 type histCase struct {
 	Assign [][2]string `json:"assign"` // key, value
+	// Setup: assignments made before the script by Params.Setup (Env.Setenv)
+	Setup [][2]string `json:"setup,omitempty"`
 }
 
 func parseEnvDump(s string) (map[string]string, string) {
@@ -283,18 +297,30 @@ func parseEnvDump(s string) (map[string]string, string) {
 func checkHistory(root string, h histCase) []kit.V {
 	var sb strings.Builder
 	model := map[string]string{}
+	for _, a := range h.Setup {
+		model[a[0]] = a[1]
+	}
 	for _, a := range h.Assign {
 		sb.WriteString("env " + Q(a[0]+"="+a[1]) + "\n")
 		model[a[0]] = a[1]
 	}
 	sb.WriteString("args 0 $X ${X} $Y ${Y} ${X@R} a$X-b\n")
-	sb.WriteString("getenv 1 X\ngetenv 2 Y\n")
+	sb.WriteString("getenv 1 X\ngetenv 2 Y\ngetenv 4 HOME\n")
 	sb.WriteString("exec henv\ncapstdout 3\n")
-	rec, res := runScript(root, sb.String())
-	key := func(class string) string { return fmt.Sprintf("%s assignments=%q", class, h.Assign) }
+	rec, res := runScriptSetup(root, sb.String(), h.Setup)
+	key := func(class string) string {
+		if h.Setup != nil {
+			return fmt.Sprintf("%s setup=%q assignments=%q", class, h.Setup, h.Assign)
+		}
+		return fmt.Sprintf("%s assignments=%q", class, h.Assign)
+	}
 	var vs []kit.V
 	add := func(class, what string) {
-		vs = append(vs, kit.V{Key: key(class), What: fmt.Sprintf("after env assignments %q: %s", h.Assign, what), Case: h})
+		pre := ""
+		if h.Setup != nil {
+			pre = fmt.Sprintf("Setup assignments %q, then ", h.Setup)
+		}
+		vs = append(vs, kit.V{Key: key(class), What: fmt.Sprintf("after %senv assignments %q: %s", pre, h.Assign, what), Case: h})
 	}
 	if res.Verdict != tsh.Pass {
 		add("history-script-failed", "the script did not pass: "+res.Log)
@@ -312,6 +338,9 @@ func checkHistory(root string, h histCase) []kit.V {
 	}
 	if rec.getenv[1] != x || rec.getenv[2] != y {
 		add("getenv", fmt.Sprintf("Getenv gives X=%q Y=%q, latest assignments are X=%q Y=%q", rec.getenv[1], rec.getenv[2], x, y))
+	}
+	if hv, ok := model["HOME"]; ok && rec.getenv[4] != hv {
+		add("getenv", fmt.Sprintf("Getenv gives HOME=%q, latest assignment is %q", rec.getenv[4], hv))
 	}
 	child, _ := parseEnvDump(rec.stdouts[3])
 	for k, v := range model {
@@ -479,7 +508,7 @@ func realMain() {
 	var rec func(cur [][2]string)
 	rec = func(cur [][2]string) {
 		if len(cur) > 0 {
-			hists = append(hists, histCase{append([][2]string(nil), cur...)})
+			hists = append(hists, histCase{Assign: append([][2]string(nil), cur...)})
 		}
 		if len(cur) == maxH {
 			return
@@ -495,7 +524,40 @@ func realMain() {
 		{{"XY", "2"}, {"X", "1"}, {"XY", "4"}},
 		{{"X", "1"}, {"Y", "2"}, {"X", "3"}, {"Y", "4"}},
 	} {
-		hists = append(hists, histCase{seq})
+		hists = append(hists, histCase{Assign: seq})
+	}
+	// assignments made by Params.Setup (also of a variable testscript itself
+	// sets, and of one name twice) followed by script assignments
+	var sAssigns, vAssigns [][2]string
+	for _, k := range []string{"X", "Y", "HOME"} {
+		for _, v := range []string{"s1", "s2"} {
+			sAssigns = append(sAssigns, [2]string{k, v})
+		}
+		for _, v := range []string{"v1", ""} {
+			vAssigns = append(vAssigns, [2]string{k, v})
+		}
+	}
+	seqs := func(al [][2]string, min, max int) [][][2]string {
+		var out [][][2]string
+		var rec func(cur [][2]string)
+		rec = func(cur [][2]string) {
+			if len(cur) >= min {
+				out = append(out, append([][2]string(nil), cur...))
+			}
+			if len(cur) == max {
+				return
+			}
+			for _, a := range al {
+				rec(append(cur, a))
+			}
+		}
+		rec(nil)
+		return out
+	}
+	for _, su := range seqs(sAssigns, 1, 2) {
+		for _, as := range seqs(vAssigns, 0, 2) {
+			hists = append(hists, histCase{Assign: as, Setup: su})
+		}
 	}
 	var next int64 = -1
 	for w := 0; w < nw; w++ {
@@ -531,7 +593,7 @@ func realMain() {
 
 	r.Set("evaluations", evals)
 	r.Set("distinct_nontrivial", nontrivial)
-	r.Set("rule", fmt.Sprintf("quoting law: every word of <= %d bytes over {a,SP,TAB,',$,#,CR,{,},@,\\,=,à,0xA0} quoted (3 placements) and every pair of words of <= 2 bytes (separate and adjacent); splitting: every line of <= %d tokens over {a,b,SP,TAB,','',#,$X,${X},${X@R},$$,${/},${:},CR,à,NEL,VT,FF}; env histories: every sequence of <= %d assignments over {X,Y} x 10 values, observed through expansion, Getenv and a child process; @R: every value of <= 3 bytes over 10 regexp metacharacters against every string of <= %d. non-trivial = non-empty words / lines with a quote, $, # or blank / all histories and values, counted", n1, n2, maxH, nstr))
+	r.Set("rule", fmt.Sprintf("quoting law: every word of <= %d bytes over {a,SP,TAB,',$,#,CR,{,},@,\\,=,à,0xA0} quoted (3 placements) and every pair of words of <= 2 bytes (separate and adjacent); splitting: every line of <= %d tokens over {a,b,SP,TAB,','',#,$X,${X},${X@R},$$,${/},${:},CR,à,NEL,VT,FF}; env histories: every sequence of <= %d assignments over {X,Y} x 10 values, and every sequence of 1-2 assignments made by Params.Setup over {X,Y,HOME} x 2 values followed by 0-2 script assignments, observed through expansion, Getenv and a child process; @R: every value of <= 3 bytes over 10 regexp metacharacters against every string of <= %d. non-trivial = non-empty words / lines with a quote, $, # or blank / all histories and values, counted", n1, n2, maxH, nstr))
 	r.Set("env_histories", len(hists))
 	r.Set("r_law_values", len(rvals))
 	r.Set("exhaustive", !r.Capped())
